@@ -32,9 +32,10 @@ const (
 func (m echMode) String() string { return [...]string{"noech", "echaccept", "echreject"}[m] }
 
 type clientID struct {
-	name string
-	id   tls.ClientHelloID
-	ech  bool // implements real ECH when Config.EncryptedClientHelloConfigList is set
+	name  string
+	id    tls.ClientHelloID
+	ech   bool // implements real ECH when Config.EncryptedClientHelloConfigList is set
+	plain bool // tls.Client(conn, cfg): the crypto/tls entry point (Conn.clientHandshake), no UConn / ClientHelloID
 }
 
 type cfgSpec struct {
@@ -153,7 +154,19 @@ func (e *env) handshake(cs cfgSpec, lk leafKind, cache tls.ClientSessionCache) o
 	}
 	defer conn.Close()
 	conn.SetDeadline(time.Now().Add(10 * time.Second))
-	uc := tls.UClient(conn, e.clientConfig(cs, cache), cs.cl.id)
+	// the two entry points run different code up to the certificate (handshake_client.go vs u_handshake_client.go)
+	type hsConn interface {
+		Handshake() error
+		ConnectionState() tls.ConnectionState
+		Read([]byte) (int, error)
+		Close() error
+	}
+	var uc hsConn
+	if cs.cl.plain {
+		uc = tls.Client(conn, e.clientConfig(cs, cache))
+	} else {
+		uc = tls.UClient(conn, e.clientConfig(cs, cache), cs.cl.id)
+	}
 	err = uc.Handshake()
 	var o obs
 	o.class, o.retry = classify(err)
